@@ -36,7 +36,7 @@ var reserved = map[string]bool{
 	"ensures": true, "modifies": true, "loop": true, "invariant": true, "inline": true, "pure": true,
 	"forall": true, "exists": true, "struct": true, "var": true, "const": true,
 	"impl": true, "callinv": true, "unchecked": true, "assumes": true, "lockfree": true, "guarded": true, "acquires": true,
-	"nopanic": true, "terminates": true, "derived": true, "assumed": true, "view": true, "private": true, "abstractbody": true, "let": true, "in": true, "reads": true,
+	"frozen": true, "nopanic": true, "terminates": true, "derived": true, "assumed": true, "view": true, "private": true, "abstractbody": true, "let": true, "in": true, "reads": true,
 }
 
 func lexSpec(file string, startLine int, src string) ([]stok, error) {
@@ -283,6 +283,24 @@ type GhostVar struct {
 	Imports map[string]string
 }
 
+// GuardDecl declares how a shared location is protected (lock discipline, C16):
+//
+//	guarded field alias.T.F by <expr over this>   loads / stores of the field (and operations on the map it holds)
+//	guarded global alias.name by <expr>           the same for a package-level variable
+//	frozen field alias.T.F                        never written once the object is shared (stores only to fresh objects)
+type GuardDecl struct {
+	Kind    string // "field" | "global"
+	Frozen  bool
+	Alias   string
+	Type    string
+	Name    string
+	By      Expr
+	Imports map[string]string
+	Pkg     string
+	File    string
+	Line    int
+}
+
 type PkgInvariant struct {
 	Pkg     string
 	Clause  Clause
@@ -311,6 +329,7 @@ type ImplBlock struct {
 type SpecFile struct {
 	Impls      []*ImplBlock
 	Invariants []*PkgInvariant
+	Guards     []*GuardDecl
 	Imports   map[string]string
 	Contracts []*Contract
 	Funcs     []*SpecFunc
@@ -479,6 +498,42 @@ func parseSpecTokens(toks []stok, pkg string) (sf *SpecFile, err error) {
 				}
 			}
 			sf.Impls = append(sf.Impls, ib)
+		case p.isKw("guarded"), p.isKw("frozen"):
+			kw := p.next()
+			g := &GuardDecl{Frozen: kw.s == "frozen", Imports: sf.Imports, Pkg: p.pkg, File: kw.file, Line: kw.line}
+			g.Kind = p.ident()
+			if g.Kind != "field" && g.Kind != "global" {
+				p.fail("guarded/frozen: expected field or global")
+			}
+			parts := []string{p.ident()}
+			for p.accept(".") {
+				if p.accept("*") {
+					parts = append(parts, "*")
+				} else {
+					parts = append(parts, p.ident())
+				}
+			}
+			want := 2
+			if g.Kind == "global" {
+				want = 1
+			}
+			if len(parts) == want+1 {
+				g.Alias = parts[0]
+				parts = parts[1:]
+			}
+			if len(parts) != want {
+				p.fail("guarded/frozen: malformed location")
+			}
+			if g.Kind == "field" {
+				g.Type, g.Name = parts[0], parts[1]
+			} else {
+				g.Name = parts[0]
+			}
+			if !g.Frozen {
+				p.expect("by")
+				g.By = p.parseExpr()
+			}
+			sf.Guards = append(sf.Guards, g)
 		case p.isKw("invariant"):
 			kw := p.next()
 			cl := p.parseClause(kw, fmt.Sprintf("inv%d", len(sf.Invariants)+1))
